@@ -580,6 +580,18 @@ def tecmp_jobs():
     # std::string instantiated from the headers (variant "str", kept in the driver) - outside the claim.
     for n in (28, 29, 40, 52, 63):
         add(n, 1, tier="quick" if n in (29, 63) else "thorough")
+    # the conversion with concrete serial number / version bytes (variant "str": std::string instantiated from the headers;
+    # the two stringstream formatters are replaced by equivalent std::string formatters in the harness)
+    for (serial, ver, ver2, n, tier) in ((123456, 0x04030201, 5, 64, "quick"), (0, 0, 0, 64, "quick"), (4294967295, 0xFFFFFFFF, 255, 70, "quick"), (10, 0x0A0964FF, 99, 64, "thorough"), (999999999, 0x01000001, 10, 66, "thorough")):
+        jobs.append(Job("tecmp.cpp", "h_tecmp", defs={"N": n, "MT": 1, "DT": 0, "DLC": -1, "DECL": -1, "CMSERIAL": serial, "CMVER": ver, "CMVER2": ver2}, unwind=260, variant="str",
+                        unwindset={("TECMP7Decoder", None): 3, ("_M_realloc_insert", None): 3, ("_M_release", None): 3, ("_Sp_counted", None): 3},
+                        tier=tier, in_max=n + 8, mem_gb=8,
+                        sym="device id, counter, flags, interface id, timestamp, data type, all vendor-data bytes other than serial number and version bytes",
+                        outside="serial number and version bytes are concrete (their decimal renderings are allocation sizes); std::stringstream formatting is replaced by an equivalent std::string formatter"))
+    jobs.append(Job("tecmp.cpp", "h_tecmp_cm_twice", defs={"N": 64, "MT": 1, "DT": -1, "DLC": -1, "DECL": -1, "CMSERIAL": 77}, unwind=260, variant="str",
+                    unwindset={("TECMP7Decoder", None): 3, ("_M_realloc_insert", None): 3, ("_M_release", None): 3, ("_Sp_counted", None): 3},
+                    tier="quick", in_max=2 * 64 + 8, mem_gb=10, timeout=400,
+                    sym="all bytes of both status frames except routing/type/length, serial number and version bytes", outside="two calls; concrete serial number and version bytes"))
     # unsupported message kinds
     for mt in (0, 4, 0x0A, 0x55, 0xFF):
         for n in (28, 40, 60):
@@ -758,7 +770,7 @@ def c19_jobs():
     picks += [j for j in enc_twice_jobs() if j.tier == "quick"][:2]
     picks += [j for j in c02_jobs() if j.defs.get("N") in (32, 48) and j.defs.get("VER") == 1 and "FMT" not in j.defs]
     picks += [j for j in c02_jobs() if j.defs.get("FMT") == 3 and j.defs.get("N") in (62, 65)]
-    picks += [j for j in tecmp_jobs() if j.tier == "quick" and (j.defs["MT"], j.defs["N"]) in ((2, 52), (3, 41), (3, 38), (0x55, 40), (2, 64))]
+    picks += [j for j in tecmp_jobs() if j.tier == "quick" and j.entry == "h_tecmp" and (j.defs["MT"], j.defs["N"]) in ((2, 52), (3, 41), (3, 38), (0x55, 40), (2, 64), (1, 64))]
     q5, _ = c05_shapes(5)
     picks += [j for j in seq_jobs(q5[:4], []) if j.entry == "h_seq" and j.variant == "mapmodel"]
     picks += [j for j in seq_jobs(q5[:1], []) if j.variant == "real" and j.entry == "h_seq"]
